@@ -149,6 +149,10 @@ pub struct ModelSpec {
     /// index); empty = v0, i0, v1, i1, v2, i2. Every section is addressed by its own offset.
     #[serde(default)]
     pub section_order: Vec<usize>,
+    /// meshes of the mesh table that belong to no LOD's main range: they sit behind LOD 0's meshes and are listed as LOD 0's
+    /// shadow meshes, so the later LODs' first mesh is not the sum of the earlier mesh counts
+    #[serde(default)]
+    pub orphan_meshes: u8,
 }
 
 #[derive(Clone, Debug, PartialEq)]
@@ -248,7 +252,28 @@ pub struct Built {
 /// section followed by the (16-byte padded) index section.
 pub fn encode(m: &ModelSpec) -> Built {
     let v6 = m.version >= 0x0100_0006;
-    let all_meshes: Vec<&MeshSpec> = m.lods.iter().flatten().collect();
+    let orphan_spec = MeshSpec {
+        elements: vec![Element { stream: 0, offset: 0, ty: 2, usage: 0, usage_index: 0 }],
+        strides: [12, 0, 0],
+        stream_count: 1,
+        vertex_count: 0,
+        streams: [vec![], vec![], vec![]],
+        stream_gaps: [0; 3],
+        indices: vec![],
+        material_index: 0,
+        submeshes: vec![],
+        bone_table_index: 0,
+    };
+    let orphans = if m.lods.len() >= 2 { m.orphan_meshes as usize } else { 0 };
+    let mut all_meshes: Vec<&MeshSpec> = vec![];
+    for (l, lod) in m.lods.iter().enumerate() {
+        all_meshes.extend(lod.iter());
+        if l == 0 {
+            for _ in 0..orphans {
+                all_meshes.push(&orphan_spec);
+            }
+        }
+    }
     // ---- string table
     let mut strings: Vec<u8> = vec![];
     let mut put = |s: &str, strings: &mut Vec<u8>| -> u32 {
@@ -321,6 +346,12 @@ pub fn encode(m: &ModelSpec) -> Built {
         }
         while isec.len() % 16 != 0 {
             isec.push(0);
+        }
+        if exp_lods.is_empty() {
+            for _ in 0..orphans {
+                mesh_records.push((start_index, [0; 3]));
+                mesh_submesh_index.push(submesh_records.len() as u16);
+            }
         }
         lod_vertex.push(vsec);
         lod_index.push(isec);
@@ -438,7 +469,7 @@ pub fn encode(m: &ModelSpec) -> Built {
             r.u16(mesh_index).u16(count);
             r.f32(10.0 * (l + 1) as f32).f32(5.0 * (l + 1) as f32);
             r.u16(mesh_index + count).u16(0); // water
-            r.u16(mesh_index + count).u16(0); // shadow
+            r.u16(mesh_index + count).u16(if l == 0 { orphans as u16 } else { 0 }); // shadow
             r.u16(0).u16(0); // terrain shadow
             r.u16(mesh_index + count).u16(0); // vertical fog
             let (vsize, isize_, voff, ioff) = lod_recs[l];
@@ -446,6 +477,9 @@ pub fn encode(m: &ModelSpec) -> Built {
             r.u32(0).zeros(4); // polygon count
             r.u32(vsize).u32(isize_).u32(voff).u32(if count > 0 { ioff + 64 * m.skew_unused_copies as u32 } else { ioff });
             mesh_index += count;
+            if l == 0 {
+                mesh_index += orphans as u16;
+            }
         }
         for (i, mesh) in all_meshes.iter().enumerate() {
             let (start, offs) = mesh_records[i];
